@@ -1,5 +1,6 @@
 import SC.Properties.C04
 import SC.Proofs.Utf8Thy
+import SC.Proofs.RIndex
 /-!
 # C06 — total and memory-safe on arbitrary bytes
 
@@ -28,6 +29,16 @@ theorem spec_lastIndex_in_range (s sub : Bytes) : -1 ≤ S.lastIndex s sub ∧ S
   cases S.lastIndexK s sub with
   | none => simp
   | some k => simp; exact offAt_le s k
+
+/-- `Index` never panics or hangs, on any bytes, in either package: it equals a specification value -/
+theorem index_total (cfg : A.Cfg) (s sub : Bytes) :
+    A.Index cfg s sub ≠ A.fault ∧ A.Index cfg s sub ≠ A.nofuel ∧ -1 ≤ A.Index cfg s sub ∧ A.Index cfg s sub ≤ s.length := by
+  rw [A.Index_eq]
+  have := spec_index_in_range s sub
+  refine ⟨?_, ?_, this.1, this.2⟩ <;> simp only [A.fault, A.nofuel] <;> omega
+
+/-- `IndexRune` likewise, for every `int32` -/
+theorem indexRune_total (cfg : A.Cfg) (s : Bytes) (r : Int) : A.IndexRune cfg s r = S.indexRune s r := A.IndexRune_eq cfg s r
 
 example : A.Count {} [0xFF, 0xFF] [0xFF, 0xFF] = 1 ∧ A.Count {pkg := .byt} [0xFF, 0xFF] [0xFF, 0xFF] = 1 := by decide +kernel
 end C06
